@@ -418,6 +418,7 @@ func (c *gcmCipher) readCipherPacket(seqNum uint32, r io.Reader) ([]byte, error)
 type cbcCipher struct {
 	mac       hash.Hash
 	macSize   uint32
+	etm       bool
 	decrypter cipher.BlockMode
 	encrypter cipher.BlockMode
 
@@ -440,6 +441,7 @@ func newCBCCipher(c cipher.Block, key, iv, macKey []byte, algs DirectionAlgorith
 	}
 	if cbc.mac != nil {
 		cbc.macSize = uint32(cbc.mac.Size())
+		cbc.etm = macModes[algs.MAC].etm
 	}
 
 	return cbc, nil
@@ -505,7 +507,69 @@ func (c *cbcCipher) readCipherPacket(seqNum uint32, r io.Reader) ([]byte, error)
 	return p, err
 }
 
+// readCipherPacketEtM reads a packet protected by an encrypt-then-MAC
+// algorithm (*-etm@openssh.com): the packet length is not encrypted and the
+// MAC covers the sequence number, the length and the ciphertext.
+func (c *cbcCipher) readCipherPacketEtM(seqNum uint32, r io.Reader) ([]byte, error) {
+	blockSize := uint32(c.decrypter.BlockSize())
+
+	if _, err := io.ReadFull(r, c.packetData[:4]); err != nil {
+		return nil, err
+	}
+	c.oracleCamouflage = maxPacket + c.macSize
+
+	length := binary.BigEndian.Uint32(c.packetData[:4])
+	if length > maxPacket {
+		return nil, cbcError("ssh: packet too large")
+	}
+	if length < maxUInt32(cbcMinPacketSizeMultiple, int(blockSize)) {
+		return nil, cbcError("ssh: packet too small")
+	}
+	// The encrypted part of the packet (everything but the length field)
+	// must be a multiple of the block size or 8, whichever is larger.
+	if length%maxUInt32(cbcMinPacketSizeMultiple, int(blockSize)) != 0 {
+		return nil, cbcError("ssh: invalid packet length multiple")
+	}
+
+	macStart := 4 + length
+	entirePacketSize := macStart + c.macSize
+	if uint32(cap(c.packetData)) < entirePacketSize {
+		lengthBytes := [4]byte(c.packetData[:4])
+		c.packetData = make([]byte, entirePacketSize)
+		copy(c.packetData, lengthBytes[:])
+	} else {
+		c.packetData = c.packetData[:entirePacketSize]
+	}
+
+	n, err := io.ReadFull(r, c.packetData[4:])
+	if err != nil {
+		return nil, err
+	}
+	c.oracleCamouflage -= uint32(n)
+
+	c.mac.Reset()
+	binary.BigEndian.PutUint32(c.seqNumBytes[:], seqNum)
+	c.mac.Write(c.seqNumBytes[:])
+	c.mac.Write(c.packetData[:macStart])
+	c.macResult = c.mac.Sum(c.macResult[:0])
+	if subtle.ConstantTimeCompare(c.macResult, c.packetData[macStart:]) != 1 {
+		return nil, cbcError("ssh: MAC failure")
+	}
+
+	c.decrypter.CryptBlocks(c.packetData[4:macStart], c.packetData[4:macStart])
+
+	paddingLength := uint32(c.packetData[4])
+	if paddingLength < cbcMinPaddingSize || length <= paddingLength+1 {
+		return nil, cbcError("ssh: invalid packet length")
+	}
+	return c.packetData[prefixLen : macStart-paddingLength], nil
+}
+
 func (c *cbcCipher) readCipherPacketLeaky(seqNum uint32, r io.Reader) ([]byte, error) {
+	if c.etm {
+		return c.readCipherPacketEtM(seqNum, r)
+	}
+
 	blockSize := c.decrypter.BlockSize()
 
 	// Read the header, which will include some of the subsequent data in the
@@ -584,11 +648,18 @@ func (c *cbcCipher) readCipherPacketLeaky(seqNum uint32, r io.Reader) ([]byte, e
 func (c *cbcCipher) writeCipherPacket(seqNum uint32, w io.Writer, rand io.Reader, packet []byte) error {
 	effectiveBlockSize := maxUInt32(cbcMinPacketSizeMultiple, c.encrypter.BlockSize())
 
-	// Length of encrypted portion of the packet (header, payload, padding).
+	// With an encrypt-then-MAC algorithm the packet length is neither
+	// encrypted nor counted in the block alignment.
+	aadLen := uint32(0)
+	if c.etm {
+		aadLen = 4
+	}
+
+	// Length of the packet up to the MAC (header, payload, padding).
 	// Enforce minimum padding and packet size.
 	encLength := maxUInt32(prefixLen+len(packet)+cbcMinPaddingSize, cbcMinPacketSize)
 	// Enforce block size.
-	encLength = (encLength + effectiveBlockSize - 1) / effectiveBlockSize * effectiveBlockSize
+	encLength = aadLen + (encLength-aadLen+effectiveBlockSize-1)/effectiveBlockSize*effectiveBlockSize
 
 	length := encLength - 4
 	paddingLength := int(length) - (1 + len(packet))
@@ -619,6 +690,11 @@ func (c *cbcCipher) writeCipherPacket(seqNum uint32, w io.Writer, rand io.Reader
 		return err
 	}
 
+	if c.etm {
+		// The MAC is computed over the unencrypted length and the ciphertext.
+		c.encrypter.CryptBlocks(c.packetData[aadLen:encLength], c.packetData[aadLen:encLength])
+	}
+
 	if c.mac != nil {
 		c.mac.Reset()
 		binary.BigEndian.PutUint32(c.seqNumBytes[:], seqNum)
@@ -628,7 +704,9 @@ func (c *cbcCipher) writeCipherPacket(seqNum uint32, w io.Writer, rand io.Reader
 		c.packetData = c.mac.Sum(c.packetData)
 	}
 
-	c.encrypter.CryptBlocks(c.packetData[:encLength], c.packetData[:encLength])
+	if !c.etm {
+		c.encrypter.CryptBlocks(c.packetData[:encLength], c.packetData[:encLength])
+	}
 
 	if _, err := w.Write(c.packetData); err != nil {
 		return err
